@@ -3,6 +3,7 @@ package c05
 import (
 	"bytes"
 	"encoding/hex"
+	"errors"
 	"fmt"
 	"reflect"
 	"regexp"
@@ -116,7 +117,20 @@ func wireOf(rr dns.RR) ([]byte, error) {
 	if err != nil {
 		return nil, err
 	}
-	return wm.EncodeRR(r)
+	w, err := wm.EncodeRR(r)
+	if err != nil {
+		return nil, err
+	}
+	// the octets are what the library's packer makes of the record, not only what its fields say
+	buf := make([]byte, len(w)+64)
+	off, perr := dns.PackRR(rr, buf, 0, nil, false)
+	if perr != nil {
+		return nil, fmt.Errorf("PackRR of the record read from text fails: %v", perr)
+	}
+	if !bytes.Equal(buf[:off], w) {
+		return nil, fmt.Errorf("PackRR of the record read from text gives %s, its fields say %s", hx(buf[:off]), hx(w))
+	}
+	return w, nil
 }
 
 func checkRec(c recCase) error {
@@ -302,6 +316,10 @@ func checkPlain(c plainCase) error {
 	}
 	text := born.String()
 	w3, err := readRecord(text)
+	if errors.Is(err, errMnemonic) {
+		pbt.Class("reader-table-lacks-mnemonic")
+		return nil
+	}
 	if err != nil {
 		return pbt.Errf("%s: an independent RFC 1035 reader cannot read String(): %v\n  text: %s", tn, err, short(text))
 	}
